@@ -120,6 +120,19 @@ def leaves(world, r, seen=None):
     return out
 
 
+def contained(world, r):
+    '''all node keys (plain and nested) transitively contained in register r'''
+    out, todo = set(), [r]
+    while todo:
+        q = todo.pop()
+        for k in world[q].n:
+            if k not in out:
+                out.add(k)
+                if is_g(k) and k // 2 < len(world):
+                    todo.append(k // 2)
+    return out
+
+
 def virtual(world, r):
     '''ordering constraints of the nested graph in register r: every graph node q becomes
     a pair top(q) (after all of q) / bot(q) (before all of q)'''
@@ -589,11 +602,57 @@ class Runner:
         self.steps.append(f'SSort {r} {self.cres_keys(got)}')
 
     # -- end of a history: flatten / sort / reduction / closure on copies
+    def flatten_one_level(self, c):
+        ctx = self.ctx
+        before = [g.copy() for g in self.ref]
+        try:
+            self.regs[c].flatten(recurse=False)
+            snap = self.observe(self.regs[c])
+        except Exception as err:  # noqa
+            return self.fail(f'flatten(recurse=False) of a copy raises {type(err).__name__}',
+                             'flatten1-raises')
+        after = [g.copy() for g in before]
+        after[c] = Ref(snap[0], snap[1])
+        ctx.count('flatten_one_level')
+        plain = leaves(before, c)
+        if leaves(after, c) != plain:
+            return self.fail(f'flatten(recurse=False) of a copy: plain nodes {sorted(leaves(after, c))}, '
+                             f'the nested graph has {sorted(plain)}', 'flatten1-nodes')
+        # one level cannot keep a constraint through an empty graph that also sits two levels down
+        direct = [k for k in before[c].n if is_g(k)]
+        empties = [k for k in direct if not before[k // 2].n]
+        deep = set()
+        for sk in direct:
+            for t in before[sk // 2].n:
+                if is_g(t) and before[t // 2].n:
+                    deep |= contained(before, t // 2)
+        virt = virtual(before, c)
+        if any(e in deep for e in empties) or virt.cyclic():
+            ctx.count('flatten_one_level_unconstrained')
+        else:
+            want = {(a, b) for a, b in virt.reach() if a in plain and b in plain}
+            got = {(a, b) for a, b in virtual(after, c).reach() if a in plain and b in plain}
+            if want != got:
+                return self.fail(f'flatten(recurse=False) of a copy: ordering constraints lost '
+                                 f'{sorted(want - got)[:3]} / invented {sorted(got - want)[:3]}',
+                                 'flatten1-order')
+        self.ref[c] = after[c]
+        self.compare_world('flatten(recurse=False)')
+        return None
+
     def end(self, r, light=False):
         if r >= len(self.regs):
             r = 0
         ctx = self.ctx
         self.steps.append('SWorld [' + '; '.join(self.csnap(self.observe(g)) for g in self.regs) + ']')
+        # ONE level only: flatten(recurse=False) of a copy (oracle only; the result may keep nested nodes)
+        if any(is_g(k) for k in self.ref[r].n):
+            self.step(['copy', r])
+            if self.failed:
+                return
+            self.flatten_one_level(len(self.regs) - 1)
+            if self.failed:
+                return
         # flatten a copy
         self.step(['copy', r])
         if self.failed:
@@ -737,10 +796,23 @@ CORPUS = [
 ]
 
 
+def shared_empty_cases():
+    '''E (key 3, empty) at the top level and inside the non-empty sub-graph S (key 5: 4 -> E), every
+    storage order of the top-level edges'''
+    import itertools
+    base = [['new'], ['new'], ['new'], ['add_dep', 2, 4, 3]]
+    edits = [['add_dep', 0, 3, 2], ['add_dep', 0, 0, 5], ['add_dep', 0, 6, 3]]
+    out = []
+    for k in (2, 3):
+        for perm in itertools.permutations(edits[:k]):
+            out.append(base + [list(e) for e in perm] + [['end', 0]])
+    return out
+
+
 def gen_cases(ctx):
     rng = ctx.rng
     nrand = 800 if ctx.tier == "quick" else 20000
-    cases = [list(c) for c in CORPUS]
+    cases = [list(c) for c in CORPUS] + shared_empty_cases()
     for _ in range(nrand):
         cases.append(gen_history(rng, rng.randint(1, 40)))
     return cases
